@@ -83,11 +83,13 @@ func (fs *FileSystemDataStore) CreateFile(ctx context.Context) (io.WriteCloser, 
 			}
 			return nil, nil, err
 		}
+		verifFS("reserve.create", finalPath, "")
 		if err := reservation.Close(); err != nil {
 			os.Remove(finalPath)
 			return nil, nil, err
 		}
 
+		verifFS("reserve.close", finalPath, "")
 		file, err := os.OpenFile(tempPath, os.O_WRONLY|os.O_CREATE|os.O_EXCL, 0o600)
 		if err != nil {
 			// Release the reservation: this attempt owns no ".tmp" to ever
@@ -100,6 +102,7 @@ func (fs *FileSystemDataStore) CreateFile(ctx context.Context) (io.WriteCloser, 
 			return nil, nil, err
 		}
 
+		verifFS("tmp.create", tempPath, finalPath)
 		writer := &renameOnCloseFile{
 			file:      file,
 			tempPath:  tempPath,
@@ -133,6 +136,7 @@ type renameOnCloseFile struct {
 }
 
 func (f *renameOnCloseFile) Write(p []byte) (int, error) {
+	verifFS("write", f.tempPath, f.finalPath)
 	return f.file.Write(p)
 }
 
@@ -141,17 +145,21 @@ func (f *renameOnCloseFile) Close() error {
 		f.file.Close()
 		return err
 	}
+	verifFS("sync", f.tempPath, f.finalPath)
 	if err := f.file.Close(); err != nil {
 		return err
 	}
+	verifFS("close", f.tempPath, f.finalPath)
 	if err := os.Rename(f.tempPath, f.finalPath); err != nil {
 		return err
 	}
+	verifFS("rename", f.tempPath, f.finalPath)
 	// fsync the directory so the rename itself survives power loss: once an
 	// external metastore commits the pointer, the publish must be durable.
 	if err := syncDir(filepath.Dir(f.finalPath)); err != nil {
 		return err
 	}
+	verifFS("syncdir", filepath.Dir(f.finalPath), f.finalPath)
 	f.published = true
 	return nil
 }
@@ -171,9 +179,11 @@ func (f *renameOnCloseFile) Abort() error {
 	if err := os.Remove(f.tempPath); err != nil && !os.IsNotExist(err) {
 		errs = append(errs, err)
 	}
+	verifFS("abort.remove", f.tempPath, f.finalPath)
 	if err := os.Remove(f.finalPath); err != nil && !os.IsNotExist(err) {
 		errs = append(errs, err)
 	}
+	verifFS("abort.remove", f.finalPath, f.finalPath)
 	return errors.Join(errs...)
 }
 
@@ -202,11 +212,13 @@ func (fs *FileSystemDataStore) TombstoneFile(ctx context.Context, filePointerByt
 	if err := os.Remove(finalPath); err != nil && !os.IsNotExist(err) {
 		errs = append(errs, err)
 	}
+	verifFS("tombstone.remove", finalPath, finalPath)
 	if strings.HasSuffix(finalPath, ".dat") {
 		tempPath := strings.TrimSuffix(finalPath, ".dat") + ".tmp"
 		if err := os.Remove(tempPath); err != nil && !os.IsNotExist(err) {
 			errs = append(errs, err)
 		}
+		verifFS("tombstone.remove", tempPath, finalPath)
 	}
 	return errors.Join(errs...)
 }
@@ -237,6 +249,7 @@ func (fs *FileSystemDataStore) GetMaybeFilesForQuery(ctx context.Context, query 
 			yield(MaybeFile{}, err)
 			return
 		}
+		verifPoint("fs.scan.listed")
 
 		for _, file := range files {
 			// Honor ctx on every entry, not just at yields: the skip paths
@@ -283,6 +296,7 @@ func (fs *FileSystemDataStore) Update(ctx context.Context, writes []WriteOperati
 	// writes are no-op, it's stored in the files
 	for _, delete := range deletes {
 		os.Remove(string(delete.FilePointerBytes))
+		verifFS("update.remove", string(delete.FilePointerBytes), "")
 	}
 	return nil
 }
